@@ -177,10 +177,10 @@ func (c *checker) classifyNoLeader(up []sim.Ev) (string, string) {
 		return "no-server-running", "no server is running"
 	}
 	type view struct {
-		name     string
-		cfg      Config
-		li, lt   uint64
-		hasCfg   bool
+		name   string
+		cfg    Config
+		li, lt uint64
+		hasCfg bool
 	}
 	var vs []view
 	for _, r := range up {
